@@ -222,7 +222,14 @@ def resolver_tokens(fnode) -> List[str]:
     from ..unroll import unroll
     fnode = unroll(fnode)
     toks = []
-    for st in fnode.body:
+
+    def chain(stmts):
+        """top-level statements, an if / elif / else chain read as the sequence of its tests"""
+        for st_ in stmts:
+            yield st_
+            if isinstance(st_, ast.If) and st_.orelse and st_.body and isinstance(st_.body[-1], (ast.Return, ast.Raise)):
+                yield from chain(st_.orelse)
+    for st in chain(fnode.body):
         if isinstance(st, ast.Assign) and isinstance(st.value, ast.Call) and isinstance(st.value.func, ast.Name) and \
                 st.value.func.id == 'convert_type':
             toks.append('convert')
@@ -345,12 +352,12 @@ def lookup_order(ctx, rep, clause):
         seq = []
         for n in ast.walk(f.node):
             if isinstance(n, ast.Call) and isinstance(n.func, ast.Attribute) and n.func.attr in names:
-                seq.append((n.lineno, n.col_offset, [n.func.attr]))
+                seq.append((n.order, 0, [n.func.attr]))
             elif isinstance(n, ast.Call) and isinstance(n.func, ast.Name) and n.func.id.startswith('_') and depth < 2:
                 # a private helper of the same module: its look-ups happen where it is called
                 g = program.find_func(f'{f.module.name}:{n.func.id}')
                 if g is not None and g.fq != f.fq:
-                    seq.append((n.lineno, n.col_offset, order_of(g.fq, names, depth + 1)[1]))
+                    seq.append((n.order, 0, order_of(g.fq, names, depth + 1)[1]))
         seq.sort(key=lambda t: (t[0], t[1]))
         out = []
         for _, _, attrs in seq:
